@@ -1812,16 +1812,20 @@ def mmul_obligations(timeout_ms=10000):
                     'line': line, 'model': None, 'detail': detail,
                     'by': ['z3'] if status == 'proved' else []})
     saved = {k_: L.ext.get(k_) for k_ in (
-        'cvxopt.modeling._minmax', 'cvxopt.modeling._ismatrix',
-        'builtins.type')}
+        'cvxopt.modeling._minmax', 'cvxopt.modeling._sum_minmax',
+        'cvxopt.modeling._ismatrix', 'builtins.type')}
     type0 = saved['builtins.type']
 
-    def mk(ex_, st, args, kwargs, n):
-        c, nm = const_of(args[0]) if args else (False, None)
-        if c and nm in ('max', 'min') and len(args) == 2 and isinstance(
-                args[1], MapSeq):
-            return MMBuilt2(nm, args[1])
-        raise Unsupported('_minmax(%r)' % (args,))
+    def mk_for(ctor):
+        def mk(ex_, st, args, kwargs, n):
+            c, nm = const_of(args[0]) if args else (False, None)
+            if c and nm in ('max', 'min') and len(args) == 2 and isinstance(
+                    args[1], MapSeq):
+                r = MMBuilt2(nm, args[1])
+                r.ctor = ctor
+                return r
+            raise Unsupported('%s(%r)' % (ctor, args))
+        return mk
 
     def ismat(ex_, st, args, kwargs, n):
         return False            # the operand of this scenario is a float
@@ -1829,9 +1833,10 @@ def mmul_obligations(timeout_ms=10000):
     i, kk = z3.Int('i'), z3.Int('kk')
     ex = None
     try:
-        for meth, factor in (('__mul__', a),
-                             ('__neg__', z3.RealVal(-1)),
-                             ('__pos__', z3.RealVal(1))):
+        for cls, meth, factor in [(c_, m_, f_) for c_ in (
+                '_minmax', '_sum_minmax') for m_, f_ in (
+                    ('__mul__', a), ('__neg__', z3.RealVal(-1)),
+                    ('__pos__', z3.RealVal(1)))]:
             ex = core.Executor(tree, 'cvxopt.modeling', L, {'unroll': 8})
             lg = z3.Int('len(f)')
             nf = z3.Int('number of functions')
@@ -1844,14 +1849,15 @@ def mmul_obligations(timeout_ms=10000):
 
             def setup(ex_, st, fid, f_, fl=fl, ismax=ismax, lg=lg, nf=nf):
                 install()
-                L.ext['cvxopt.modeling._minmax'] = mk
+                L.ext['cvxopt.modeling._minmax'] = mk_for('_minmax')
+                L.ext['cvxopt.modeling._sum_minmax'] = mk_for('_sum_minmax')
                 L.ext['cvxopt.modeling._ismatrix'] = ismat
                 fr = st.frames[fid]
                 fr['self'] = MMArg(lg, fl, ismax)
                 fr['other'] = R(a)
                 st.pc += [lg >= 1, nf >= 1]
                 st.ghost.update({'lg': lg, 'frame_check': False})
-            fname = '_minmax.%s' % meth
+            fname = '%s.%s' % (cls, meth)
             try:
                 ex.find_function(fname)
                 outs = ex.run_function(fname, setup)
@@ -1874,13 +1880,13 @@ def mmul_obligations(timeout_ms=10000):
                 val_at = lambda k_, i_: z3.substitute(elt.val(i_), (kq, k_))
                 sink.append((ex, fname, 'minmax-scale', list(st.pc) + [
                     kk >= 0, kk < nf, i >= 0], z3.And(
-                        z3.BoolVal(ms.src is fl),
+                        z3.BoolVal(ms.src is fl and v.ctor == cls),
                         z3.BoolVal(v.name == 'max') == z3.If(
                             factor >= 0, ismax, z3.Not(ismax)),
                         val_at(kk, i) == factor * g(kk, i),
                         z3.substitute(elt.ln, (kq, kk)) == tl(kk)),
-                    '%s: the result is the max (min) of the scaled '
-                    'arguments -- every argument, scaled by the factor, same '
+                    '%s: the result is an object of the same class, the max '
+                    '(min) of the scaled arguments -- every argument, scaled by the factor, same '
                     'lengths -- and max and min change places exactly for a '
                     'negative factor' % fname, 0))
     finally:
